@@ -434,17 +434,21 @@ func addGlobbedFiles(
 			newFileInfo = &newFileInfoVal
 		}
 
-		newFile := (&Content{
+		newFile := &Content{
 			Destination: NormalizeAbsoluteFilePath(dst),
 			Source:      ToNixPath(src),
 			Type:        origFile.Type,
 			FileInfo:    newFileInfo,
 			Packager:    origFile.Packager,
-		}).WithFileInfoDefaults(umask, mtime)
-		if dst, err := os.Readlink(src); err == nil {
-			newFile.Source = dst
+		}
+		// a symbolic link is packaged as a link: decide that before the
+		// defaults are filled in, so that what the link points to on the
+		// build host is not looked at
+		if linkTarget, err := os.Readlink(src); err == nil {
+			newFile.Source = linkTarget
 			newFile.Type = TypeSymlink
 		}
+		newFile = newFile.WithFileInfoDefaults(umask, mtime)
 
 		all[dst] = newFile
 	}
